@@ -18,7 +18,7 @@ func TestC14Enum(t *testing.T) {
 		cfg.Mode = "server"
 		alpha := srvAlphabet(&cfg, false)
 		enumScripts(cfg, alpha, Scale(4, 5), implNegotiates(&cfg), func(c0 *SrvCase) {
-			for _, end := range []string{"eof", "wait"} {
+			for _, end := range []string{"eof", "wait", "close-now", "cut"} {
 				idx++
 				if idx%nsh != sh {
 					continue
@@ -40,7 +40,7 @@ func TestC14(t *testing.T) {
 	rec := NewRecorder("C14", "TestC14")
 	rapid.Check(t, func(rt *rapid.T) {
 		c := genSrvCase(rt, []string{"server"})
-		c.End = rapid.SampledFrom([]string{"eof", "wait", "wait", "silence"}).Draw(rt, "end14")
+		c.End = rapid.SampledFrom([]string{"eof", "wait", "wait", "silence", "close-now", "cut"}).Draw(rt, "end14")
 		o := &Outcome{}
 		rec.Journal(c)
 		var obs *SrvObs
